@@ -71,6 +71,9 @@ pub struct RunCfg {
     /// non-conformant transport: `write` returns Ok(0) for a non-empty buffer (minimq reports
     /// WriteZero and keeps the connection); off in most runs
     pub p_write_zero: u32,
+    /// slow link: a write stays pending for a random *simulated* duration (1 ms .. 6 s), so that
+    /// the client's timers run while a packet is partially written
+    pub p_slow_write: u32,
     /// writes/flushes never stall or fail; used by timing profiles
     pub zero_time_io: bool,
     // broker policy (per mille)
@@ -138,6 +141,8 @@ pub enum Blocked {
     ReadStall,
     WriteStall,
     FlushStall,
+    /// write pending until a simulated instant
+    WriteSlow,
 }
 
 #[derive(Clone, Debug)]
@@ -146,6 +151,8 @@ pub struct WirePacket {
     pub len: usize,
     pub pkt: Packet,
     pub t_last_byte: u64,
+    /// when the first byte of the packet was first offered to `write`
+    pub t_first_offer: u64,
     pub t_flushed: Option<u64>,
     /// request tag this packet belongs to (PUBLISH/SUBSCRIBE/UNSUBSCRIBE), if any
     pub tag: Option<u32>,
@@ -202,6 +209,11 @@ pub struct ConnState {
     pub closed_by_client: bool,
     pub closed_by_broker: bool,
     // counters
+    pub write_blocked_until: u64,
+    /// time of the first write call that offered the packet now being written
+    pub first_offer_t: Option<u64>,
+    /// first-offer time of the PINGREQ that is outstanding
+    pub pingreq_first_offer: Option<u64>,
     pub n_read: u64,
     pub n_write: u64,
     pub n_flush: u64,
@@ -275,6 +287,9 @@ impl ConnState {
             n_write: 0,
             n_flush: 0,
             blocked: Blocked::None,
+            write_blocked_until: 0,
+            first_offer_t: None,
+            pingreq_first_offer: None,
             stall_run: 0,
             connack_sent: false,
             connack_consumed: false,
@@ -417,6 +432,8 @@ pub enum Event {
     },
     /// the broker closes the connection (EOF after what is already readable)
     Close { conn: usize },
+    /// a slow write becomes possible again (nothing to do but wake the client)
+    Unblock { conn: usize },
 }
 
 #[derive(Default, Clone, Debug)]
@@ -494,6 +511,8 @@ pub struct World {
     pub sim_time_max: u64,
     /// twin runs: tags of cancelled requests that are known never to have been enqueued
     pub never_enqueued: Vec<u32>,
+    /// twin runs: the next operation is not cancelled (last attempt of a repeated disconnect)
+    pub no_cancel: bool,
     pub qos0_cancelled: bool,
     pub burn_done: bool,
     pub twin_mode: bool,
@@ -575,6 +594,7 @@ impl World {
             op_label: "",
             sim_time_max: 0,
             never_enqueued: Vec::new(),
+            no_cancel: false,
             qos0_cancelled: false,
             burn_done: false,
             twin_mode: false,
@@ -720,6 +740,9 @@ impl World {
                     self.log(|| format!("broker closes c{conn}"));
                 }
             }
+            Event::Unblock { conn } => {
+                let _ = conn;
+            }
         }
     }
 
@@ -857,6 +880,26 @@ impl World {
         }
         if let Some(e) = self.conns[conn].io_error {
             return Poll::Ready(Err(e));
+        }
+        if clock::now() < self.conns[conn].write_blocked_until {
+            self.conns[conn].blocked = Blocked::WriteSlow;
+            return Poll::Pending;
+        }
+        if !self.benign && !self.cfg.zero_time_io && self.cfg.p_slow_write > 0 && { let p = self.cfg.p_slow_write; self.s_chance(p, 1000) } {
+            // (twin runs stay below the round-trip bound: a PINGREQ write slower than 5 s ends the
+            // connection at once - open finding - and the two runs would no longer be comparable)
+            let n = if self.twin_mode { 3 } else { 5 };
+            let d = [clock::US_PER_MS, 300 * clock::US_PER_MS, 700 * clock::US_PER_MS, 2 * clock::US_PER_S, 6 * clock::US_PER_S][self.s_choose(n) as usize];
+            self.conns[conn].write_blocked_until = clock::now() + d;
+            self.conns[conn].blocked = Blocked::WriteSlow;
+            self.schedule(d, Event::Unblock { conn });
+            self.fault("write_slow");
+            if self.conns[conn].parsed != self.conns[conn].wire.len() {
+                self.probe("slow_write_inside_packet");
+            }
+            self.kind(12);
+            self.log(|| format!("write({}) -> Pending for {} us (slow link)", buf.len(), d));
+            return Poll::Pending;
         }
         if !self.benign && !self.cfg.zero_time_io {
             if self.conns[conn].stall_run < 3 && { let p = self.cfg.p_stall; self.s_chance(p, 1000) } {
@@ -1077,6 +1120,9 @@ impl World {
         if c.wire_broken || c.parsed != c.wire.len() {
             return;
         }
+        if self.conns[conn].first_offer_t.is_none() {
+            self.conns[conn].first_offer_t = Some(clock::now());
+        }
         if let Ok(total) = codec::frame(buf) {
             if total == buf.len() {
                 if let Some(tag) = tag_of_raw(buf) {
@@ -1218,11 +1264,13 @@ impl World {
         let tag = tag_of_packet(&pkt);
         let len = raw.len();
         let idx = self.conns[conn].packets.len();
+        let t_first_offer = self.conns[conn].first_offer_t.take().unwrap_or_else(clock::now);
         self.conns[conn].packets.push(WirePacket {
             start,
             len,
             pkt: pkt.clone(),
             t_last_byte: clock::now(),
+            t_first_offer,
             t_flushed: None,
             tag,
         });
